@@ -2,13 +2,10 @@
 From Coq Require Import ZArith List Lia Bool ZifyBool.
 From LZ4V Require Import Gen.Consts Spec.BlockSpec Model.Mem Model.Dec Model.DecApi.
 From LZ4V Require Import Proofs.DecSafe Proofs.DecRefineBase Proofs.DecRefineSafe Proofs.DecRefineTop Proofs.DecRefineApi.
+From LZ4V Require Import Model.DecSem.
 From LZ4V Require Import Proofs.DecConverse Proofs.DecConversePartial.
 Import ListNotations.
 Local Open Scope Z_scope.
-
-(* what the sequence semantics define for an arbitrary input after the history [hist] *)
-Definition specified_output (hist B : list Z) : list Z :=
-  skipn (length hist) (rev (sem (S (length B)) (rev hist) B)).
 
 (* success with result r: the first r bytes of the destination are the first r bytes of the
    specified output - unless some parsed sequence has offset 0 (finding F5) *)
@@ -109,3 +106,37 @@ Proof.
 Qed.
 
 (* on a complete valid block the specified output is the decoded content *)
+Lemma sem_valid : forall f (bs : list Z) ss (last : list Z) (rout rout' : list Z),
+  parse_seqs f bs = Some (ss, last) -> apply_seqs rout ss = Some rout' ->
+  sem f rout bs = rev last ++ rout'.
+Proof.
+  induction f as [|f IH]; intros bs ss last rout rout' H Ha; [discriminate|].
+  rewrite parse_seqs_S in H. rewrite sem_S.
+  destruct bs as [|tok r]; [discriminate|].
+  destruct (read_len (tok / 16) r) as [[ll r1]|] eqn:E1; [|discriminate].
+  destruct (take (Z.to_nat ll) r1) as [[lits r2]|] eqn:E2; [|discriminate].
+  destruct (take_spec _ _ _ _ E2) as [Er1 Hlen]. unfold byte in *.
+  assert (Hf : firstn (Z.to_nat ll) r1 = lits /\ skipn (Z.to_nat ll) r1 = r2).
+  { subst r1. rewrite <- Hlen. split; [rewrite firstn_app, firstn_all, Nat.sub_diag; cbn [firstn]; apply app_nil_r
+                                     | rewrite skipn_app, skipn_all, Nat.sub_diag; reflexivity]. }
+  destruct Hf as [Hf1 Hf2]. cbv zeta. rewrite Hf1, Hf2.
+  destruct r2 as [|o1 [|o2 r3]]; [| discriminate |].
+  - assert (ss = []) by congruence. assert (lits = last) by congruence. subst ss last.
+    cbn [apply_seqs] in Ha. congruence.
+  - destruct (read_len (tok mod 16) r3) as [[ml r4]|] eqn:E3; [|discriminate].
+    destruct (parse_seqs f r4) as [[ss' last']|] eqn:E4; [|discriminate].
+    assert (Hss : mkSeq lits (o1 + 256 * o2) (ml + 4) :: ss' = ss) by congruence.
+    assert (Hl : last' = last) by congruence. subst ss last.
+    cbn [apply_seqs] in Ha. unfold byte in *.
+    destruct (apply_seq rout (mkSeq lits (o1 + 256 * o2) (ml + 4))) as [rout1|] eqn:Eapp; [|discriminate].
+    apply (IH r4 ss' last' rout1 rout' E4 Ha).
+Qed.
+
+Theorem specified_output_valid (hist B D : list Z) :
+  spec_decode hist B = Some D -> specified_output hist B = D.
+Proof.
+  unfold spec_decode, specified_output, parse_block, run_seqs. unfold byte in *. intros H.
+  destruct (parse_seqs (S (length B)) B) as [[ss last]|] eqn:Ep; [|discriminate].
+  destruct (apply_seqs (rev hist) ss) as [rout'|] eqn:Ea; [|discriminate].
+  injection H as <-. rewrite (sem_valid _ _ _ _ _ _ Ep Ea). reflexivity.
+Qed.
